@@ -709,3 +709,46 @@ func stateDiff(impl, ref string) string {
 	}
 	return "state differs from the reference model | impl: " + impl + " model: " + ref
 }
+
+// deliverOnly builds and delivers the datagram of a message operation without
+// touching the reference model (used by threads of schedule scenarios).
+func (rw *regWorld) deliverOnly(op string) {
+	w := rw.w
+	f := strings.Split(op, ":")
+	switch f[0] {
+	case "sub", "bind":
+		p, c, s, t, withDev := f[1], f[2], f[3], typeVars[f[4]], f[5] == "d"
+		pe := w.Peers[p]
+		if f[0] == "bind" {
+			pe.Deliver(pe.BindCall(cliAddr(p, c, withDev), srvAddr(s, withDev), t))
+		} else {
+			pe.Deliver(pe.SubscribeCall(cliAddr(p, c, withDev), srvAddr(s, withDev), t))
+		}
+	case "unsub", "unbind":
+		p, c, s, withDev := f[1], f[2], f[3], f[4] == "d"
+		pe := w.Peers[p]
+		if f[0] == "unbind" {
+			pe.Deliver(pe.UnbindCall(cliAddr(p, c, withDev), srvAddr(s, withDev)))
+		} else {
+			pe.Deliver(pe.UnsubscribeCall(cliAddr(p, c, withDev), srvAddr(s, withDev)))
+		}
+	case "write":
+		p, c, s, ack, v := f[1], f[2], f[3], f[5] == "ack", atoi(f[6])
+		pe := w.Peers[p]
+		pe.Deliver(pe.Datagram(cliAddr(p, c, true), srvAddr(s, true), model.CmdClassifierTypeWrite, ack, nil, model.CmdType{LoadControlLimitListData: limitList(v, 1, 2)}))
+	case "set":
+		rw.local(f[1]).SetData(fnLimit, limitList(atoi(f[2]), 1, 2))
+	case "entrm":
+		p, e := f[1], uint(atoi(f[2]))
+		pe := w.Peers[p]
+		st := model.NetworkManagementStateChangeTypeRemoved
+		cmd := model.CmdType{
+			Function:                            util.Ptr(model.FunctionTypeNodeManagementDetailedDiscoveryData),
+			Filter:                              []model.FilterType{*model.NewFilterTypePartial()},
+			NodeManagementDetailedDiscoveryData: pe.DiscoveryData([]world.EntSpec{{Addr: []uint{e}, Type: model.EntityTypeTypeCEM}}, false, &st),
+		}
+		pe.Deliver(pe.Datagram(pe.NM(), world.LocalNM(), model.CmdClassifierTypeNotify, false, nil, cmd))
+	default:
+		panic("deliverOnly: unsupported op " + op)
+	}
+}
